@@ -23,13 +23,14 @@ MANIFEST = {
     "note": ("Trusted: Lean kernel + standard axioms; the translators; XML text<->tree (DET.fromstring) is not modelled — the "
              "harness renders the abstract property set in varying textual forms; data types restricted to the int / str / "
              "boolean coercer kinds with integer ranges and allowed lists (floats, dates not modelled); voluptuous All/In/Range "
-             "semantics assumed; ASCII values; a property set naming a variable twice is compared but not judged."),
+             "semantics assumed; ASCII values; a repeated element assigns its last text; a property set mixing x and {ns}x for "
+             "one variable is compared but not judged."),
     "technique": "Lean 4 proof (per-variable characterisation of the NOTIFY loop) + generated ladder/type tables + model/implementation correspondence",
 }
 RULE = ("sequences of NOTIFY requests over 1..3 real services (variables of kinds ui2/i4 with/without range, boolean, string "
         "with/without allowed list, names shared between services): headers present/absent/wrong NT, NTS, SID routed / foreign / "
         "unrouted / missing; property sets of 0..7 children over 1..3 e:property elements plus foreign elements, namespaced and "
-        "unknown names, valid / unconvertible / out-of-range / not-allowed values, occasional duplicates; after each request the "
+        "unknown names, valid / unconvertible / out-of-range / not-allowed values, repeated elements; after each request the "
         "status, every variable's value and updated_at of every service and the callbacks are compared and judged. "
         "non-trivial = a routed event that changes at least one variable")
 EXHAUSTIVE = {"quick": False, "thorough": False}
@@ -171,9 +172,13 @@ def rand_body(rng, decls, dup_ok: bool):
         nm = rng.choice(["Zed", "Other", "a"])
         if nm not in names and nm not in [k[1] for k in kids]:
             kids.append([rng.choice(NSS), nm, rng.choice(STR_TEXTS + INT_TEXTS)])
-    if dup_ok and kids and rng.randrange(12) == 0:  # a variable named twice: compared, not judged
+    if dup_ok and kids and rng.randrange(6) == 0:   # a variable named again with the same tag: the last text is the event's value
+        k0 = rng.choice(kids)
+        d = next((d_ for d_ in decls if d_["name"] == k0[1]), None)
+        kids.append([k0[0], k0[1], text_for(rng, d) if d else "dup"])
+    if dup_ok and kids and rng.randrange(30) == 0:  # `x` and `{ns}x` mixed in one event: compared, not judged
         d = rng.choice(decls)
-        kids.append([rng.choice(NSS), d["name"], text_for(rng, d)])
+        kids.append([rng.choice(["urn:other", ""]), d["name"], text_for(rng, d)])
     rng.shuffle(kids)
     nprop = rng.randrange(1, 4)
     els = [{"p": True, "kids": []} for _ in range(nprop)]
@@ -249,7 +254,10 @@ CORPUS = [
     # foreign SID: the other service's variables with the same name stay untouched
     {"vars": V2, "ops": [["route", "uuid:s0", 0], ["route", "uuid:s1", 1], ["notify", NT_OK, NTS_OK, "uuid:s1", [P(("", "A", "-7"), ("", "E", "t"))], ""],
                          ["notify", NT_OK, NTS_OK, "uuid:s0", [P(("", "A", "7")), {"p": False, "kids": [["", "B", "y"]]}], ""]]},
-    # a variable named twice (dict semantics; compared, outside the judge)
+    # a variable named twice with the same tag: the last text counts (5 then 500 -> out of range -> old value kept; 500 then 5 -> 5)
+    {"vars": V2, "ops": [["route", "uuid:s0", 0], ["notify", NT_OK, NTS_OK, "uuid:s0", [P(("", "A", "5"), ("", "B", "x"), ("", "A", "500"))], ""],
+                         ["notify", NT_OK, NTS_OK, "uuid:s0", [P(("urn:q", "A", "500")), P(("urn:q", "A", "7"), ("urn:q", "A", "8"))], ""]]},
+    # `A` and `{ns}A` mixed (dict order decides; compared, outside the judge)
     {"vars": V2, "ops": [["route", "uuid:s0", 0], ["notify", NT_OK, NTS_OK, "uuid:s0", [P(("", "A", "5"), ("urn:q", "A", "6"), ("", "A", "500"))], ""]]},
 ]
 
